@@ -28,7 +28,8 @@ var log = logging.GetLogger("controller", "mastership")
 func NewController(topo topo.Store, configurations configuration.Store) *controller.Controller {
 	c := controller.NewController("mastership")
 	c.Watch(&TopoWatcher{
-		topo: topo,
+		topo:           topo,
+		configurations: configurations,
 	})
 	c.Watch(&ConfigurationStoreWatcher{
 		configurations: configurations,
